@@ -34,7 +34,16 @@ type Variant struct {
 	Drop   int     `json:"drop,omitempty"`   // C06/C14: index of the op removed in the twin run
 	Perm   []int   `json:"perm,omitempty"`   // C16: new order of ops (indices into Ops)
 	Defer  bool    `json:"defer,omitempty"`  // C16: twin run toggles DeferAcyclicVerification
-	Encode []EncFn `json:"encode,omitempty"` // C15: per-function re-encoding
+	Encode []EncFn `json:"encode,omitempty"` // (unused)
+	// C15: alternative, equivalent encodings of some operations' functions
+	// and options, by op index
+	Alt map[int]*AltOp `json:"alt,omitempty"`
+}
+
+// AltOp is the re-encoded form of one operation (C15).
+type AltOp struct {
+	F *Fn   `json:"f"`
+	O *Opts `json:"o,omitempty"`
 }
 
 // EncFn describes how one function is re-encoded in C15's twin run.
